@@ -147,12 +147,13 @@ def check_case(case, workdir=None):
         pr.cleanup()
 
 
-def case_strategy():
-    return st.one_of(gen_cfg.model_and_spec(force=['many_ports'], want_mixed=True),
+def strata():
+    return [gen_cfg.model_and_spec(force=['many_ports'], want_mixed=True),
                      gen_cfg.model_and_spec(want_mc=True),
+                     gen_cfg.model_and_spec(force=['injected', 'many_ports']),
                      gen_cfg.model_and_spec(force=['global_enc']),
                      gen_cfg.model_and_spec(force=['no_ports']),
-                     gen_cfg.model_and_spec())
+                     gen_cfg.model_and_spec()]
 
 
 def run(ctx):
@@ -162,10 +163,10 @@ def run(ctx):
         if ctx.replay.get('clause') == name:
             ctx._run_one(name, lambda c: check_case(c), ctx.replay['case'])  # pylint: disable=protected-access,unnecessary-lambda
         return
-    from vf.draw import draw_cases
+    from vf.draw import draw_stratified
     from vf.runner import case_hash, load_regress
-    cases = load_regress(ctx.prop, name) + draw_cases(case_strategy(), 12 if ctx.quick else 150,
-                                                      ctx.seed)
+    cases = load_regress(ctx.prop, name) + draw_stratified(strata(), 12 if ctx.quick else 150,
+                                                           ctx.seed)
     done = {}
 
     def check(case, workdir):
